@@ -568,6 +568,7 @@ def run(ctx: vlib.Ctx):
     ctx.rule = ("histories: every sequence of length <= L over {W,C,N,D} x {none,cur,stale,future} + external modification, from the "
                 "initial states {existing file, absent}; one real call per trie node; distinct = distinct history prefix; "
                 "non-trivial = the step is a tool call (not an external modification). interleavings: case = (writer pair, schedule)")
+    F.preload()   # pool workers are forked from this process: they inherit the imported implementation
     ctx.translate(PROJECT)
     proj = ctx.lean(PROJECT, PROPS)
     if vlib.fingerprints_changed(ctx.prop, ANCHORS):
